@@ -77,6 +77,7 @@ private:
     bool isUniqueReference(expression_t expr) const;
     bool isParameterCompatible(type_t param, expression_t arg);
     bool checkParameterCompatible(type_t param, expression_t arg);
+    void checkArguments(instance_t& instance, size_t first);
     void checkIgnoredValue(expression_t expr);
     bool checkAssignmentExpression(expression_t);
     bool checkConditionalExpressionInFunction(expression_t);
